@@ -1185,6 +1185,107 @@ func c17IdleRestartCountsStreamFrames(c *Ctx, R string) {
 	}
 }
 
+// C08.8: on the parse side, a subtraction of two wire-derived values (packet numbers, byte counts, varints) is
+// dominated by a comparison that bounds the subtrahend by the minuend: `if ackBlock > largest { error }` before
+// `largest - ackBlock`. The guard must compare with the very value that is subtracted from — a guard against a
+// different (larger) value lets a malformed frame produce a negative / wrapped-around result that is then accepted.
+func c08GuardedSubtractions(c *Ctx) {
+	const R = "C08.8"
+	roots, _ := bndWireRoots(c.P)
+	fns := c.P.reachStatic(roots, func(pk string) bool {
+		return pk == modPath+"/internal/wire" || pk == modPath+"/quicvarint"
+	})
+	n, guarded := 0, 0
+	for _, f := range fns {
+		perFn := 0
+		eachInstr(f, func(in ssa.Instruction) {
+			bo, ok := in.(*ssa.BinOp)
+			if !ok || bo.Op != token.SUB {
+				return
+			}
+			if _, isK := constInt64Of(bo.Y); isK {
+				// x - const: part of a longer chain, judged at the outermost subtraction
+				if inner, ok := stripConv(bo.X).(*ssa.BinOp); !ok || inner.Op != token.SUB {
+					return
+				}
+			}
+			if _, isK := constInt64Of(bo.X); isK {
+				return
+			}
+			// a - b - K is one subtraction of (b + K): skip the inner link when the outer one subtracts a constant
+			if rs := bo.Referrers(); rs != nil {
+				for _, r := range *rs {
+					if outer, ok := r.(*ssa.BinOp); ok && outer.Op == token.SUB && stripConv(outer.X) == ssa.Value(bo) {
+						if _, isK := constInt64Of(outer.Y); isK {
+							return
+						}
+					}
+				}
+			}
+			// minuend and total subtrahend: constants are folded, at most one variable subtrahend
+			minuend := ssa.Value(bo)
+			var subTerms []ssa.Value
+			var subK int64
+			for {
+				cur, ok := stripConv(minuend).(*ssa.BinOp)
+				if !ok || cur.Op != token.SUB {
+					break
+				}
+				if k, isK := constInt64Of(cur.Y); isK {
+					subK += k
+					minuend = cur.X
+					continue
+				}
+				if len(subTerms) > 0 {
+					break
+				}
+				subTerms = append(subTerms, cur.Y)
+				minuend = cur.X
+			}
+			if len(subTerms) == 0 {
+				return
+			}
+			// lengths are the business of the BND rules: skip len()-arithmetic and the byte-count bookkeeping of the parsers
+			isLenish := func(v ssa.Value) bool {
+				cl, ok := stripConv(v).(*ssa.Call)
+				return ok && builtinName(&cl.Call) == "len"
+			}
+			if isLenish(minuend) {
+				return
+			}
+			for _, t := range subTerms {
+				if isLenish(t) {
+					return
+				}
+			}
+			n++
+			perFn++
+			var sub ssa.Value
+			if len(subTerms) == 1 {
+				sub = subTerms[0]
+			}
+			ok2 := false
+			if sub != nil {
+				ok2 = leAt(sub, subK, minuend, 0, bo.Block())
+			}
+			key := fmt.Sprintf("guarded-sub:%s#%d", funcName(f), perFn)
+			if why, isEx := subExceptions[key]; isEx {
+				c.OK(R, key, c.P.InstrPos(in), "exception: "+why)
+				return
+			}
+			if ok2 {
+				guarded++
+			}
+			c.FuncsSet[funcName(f)] = true
+			c.Check(ok2, R, key, c.P.InstrPos(in), "the subtrahend is bounded by the minuend on a dominating edge (no negative / wrapped result from a malformed frame)")
+		})
+	}
+	c.Floor(R, "subtractions of wire-derived values on the parse side", n, 3)
+}
+
+// subExceptions: subtractions on the parse side that need no guard, with the reason.
+var subExceptions = map[string]string{}
+
 // valueOf: the instruction as a value (nil if it is not one).
 func valueOf(in ssa.Instruction) ssa.Value {
 	v, _ := in.(ssa.Value)
